@@ -40,6 +40,13 @@ struct In {
   double n() { if (k >= v.size()) { fprintf(stderr, "short case\n"); exit(3); } return v[k++]; }
 };
 
+template <typename V> struct OtherOf;
+template <> struct OtherOf<vec3f> { typedef vec3fa type; };
+template <> struct OtherOf<vec3fa> { typedef vec3f type; };
+template <> struct OtherOf<vec3d> { typedef vec3f type; };
+template <> struct OtherOf<vec2f> { typedef vec2d type; };
+template <> struct OtherOf<vec2d> { typedef vec2f type; };
+
 template <typename V3>
 struct Lin3 {
   typedef typename V3::scalar_t T;
@@ -97,6 +104,24 @@ struct Lin3 {
       { A c(zero); A &r = (c = a); pa3(c); pa3(r); }
       pb(a == b); pb(a != b); pb(a == a); pb(a != a);
       pa3(A(zero)); pa3(A(one)); pa3(A(a.l.vx, a.l.vy, a.l.vz, a.p));
+      return true;
+    }
+    if (kind == "ocx") {   // every flavour: printing, pointer views, conversions, comparisons against single-entry perturbations
+      T e[12]; for (int i = 0; i < 12; i++) e[i] = T(in.n());
+      L l(V3(e[0], e[1], e[2]), V3(e[3], e[4], e[5]), V3(e[6], e[7], e[8])); A a(l, V3(e[9], e[10], e[11]));
+      { std::stringstream ss; ss << l; pnums(ss.str()); }
+      { std::stringstream ss; ss << a; pnums(ss.str()); }
+      { A t = a; L *lp = t; pm3(*lp); const A ct = a; const L *clp = ct; pm3(*clp); }
+      typedef typename OtherOf<V3>::type O; typedef LinearSpace3<O> LO; typedef AffineSpaceT<LO> AO;
+      { LO lo(l); L back(lo); pm3(back); AO ao(a); A aback(ao); pa3(aback); }
+      int eqL = 0, neL = 0, eqA = 0, neA = 0;
+      for (int k = 0; k < 12; k++) {
+        T f[12]; for (int i = 0; i < 12; i++) f[i] = e[i]; f[k] += T(1);
+        L lk(V3(f[0], f[1], f[2]), V3(f[3], f[4], f[5]), V3(f[6], f[7], f[8])); A ak(lk, V3(f[9], f[10], f[11]));
+        eqA += (a == ak); neA += (a != ak);
+        if (k < 9) { eqL += (l == lk); neL += (l != lk); }
+      }
+      out.push_back(eqL); out.push_back(neL); out.push_back(eqA); out.push_back(neA);
       return true;
     }
     if (kind == "frm") {
@@ -160,6 +185,15 @@ struct Quat {
       mixed(a, s);
       return true;
     }
+    if (kind == "ocq") {
+      T e[4]; for (int i = 0; i < 4; i++) e[i] = T(in.n());
+      Q q(e[0], e[1], e[2], e[3]);
+      { std::stringstream ss; ss << q; pnums(ss.str()); }
+      int eq = 0, ne = 0;
+      for (int k = 0; k < 4; k++) { T f[4]; for (int i = 0; i < 4; i++) f[i] = e[i]; f[k] += T(1); Q p(f[0], f[1], f[2], f[3]); eq += (q == p); ne += (q != p); }
+      out.push_back(eq); out.push_back(ne);
+      return true;
+    }
     if (kind == "ypr") {
       T y = T(in.n()), p = T(in.n()), r = T(in.n());
       pq(Q(y, p, r));
@@ -210,6 +244,28 @@ static bool run_l2_any(const std::string &kind, In &in)
     return true;
   }
   if (kind == "oa2") { A a = a2(), b = a2(); { A c = a; A &r = (c *= b); pa2(c); pa2(r); } return true; }
+  if (kind == "ocx2") {
+    T e[6]; for (int i = 0; i < 6; i++) e[i] = T(in.n());
+    L l(V2(e[0], e[1]), V2(e[2], e[3])); A a(l, V2(e[4], e[5]));
+    { std::stringstream ss; ss << l; pnums(ss.str()); }
+    { std::stringstream ss; ss << a; pnums(ss.str()); }
+    { A t = a; L *lp = t; pm2(*lp); const A ct = a; const L *clp = ct; pm2(*clp); }
+    typedef typename OtherOf<V2>::type O; { LinearSpace2<O> lo(l); L back(lo); pm2(back); AffineSpaceT<LinearSpace2<O>> ao(a); A aback(ao); pa2(aback); }
+    int eqL = 0, neL = 0, eqA = 0, neA = 0;
+    for (int k = 0; k < 6; k++) {
+      T f[6]; for (int i = 0; i < 6; i++) f[i] = e[i]; f[k] += T(1);
+      L lk(V2(f[0], f[1]), V2(f[2], f[3])); A ak(lk, V2(f[4], f[5]));
+      eqA += (a == ak); neA += (a != ak);
+      if (k < 4) { eqL += (l == lk); neL += (l != lk); }
+    }
+    out.push_back(eqL); out.push_back(neL); out.push_back(eqA); out.push_back(neA);
+    return true;
+  }
+  if (kind == "f2") {   // the 2D factories of AffineSpaceT and LinearSpace2
+    V2 v = v2(); T r = T(in.n());
+    pa2(A::scale(v)); pa2(A::translate(v)); pa2(A::rotate(r)); pm2(L::scale(v)); pm2(L::rotate(r));
+    return true;
+  }
   return false;
 }
 
@@ -262,6 +318,12 @@ static bool run_l2(const std::string &kind, In &in)
         eqQ += (p == q); neQ += (p != q);
       }
     }
+    int eqA2 = 0, neA2 = 0;
+    for (int k = 0; k < 6; k++) {
+      float f[6]; for (int i = 0; i < 6; i++) f[i] = e[i]; f[k] += 1.0f;
+      A x(L(vec2f(e[0], e[1]), vec2f(e[2], e[3])), vec2f(e[4], e[5])), y(L(vec2f(f[0], f[1]), vec2f(f[2], f[3])), vec2f(f[4], f[5]));
+      eqA2 += (x == y); neA2 += (x != y);
+    }
     out.push_back(eqL3); out.push_back(neL3); out.push_back(eqA3); out.push_back(neA3);
     out.push_back(eqL2); out.push_back(neL2); out.push_back(eqQ); out.push_back(neQ);
     { std::stringstream ss; ss << a3v; pnums(ss.str()); }
@@ -270,6 +332,7 @@ static bool run_l2(const std::string &kind, In &in)
     { std::stringstream ss; ss << A(L(vec2f(e[0], e[1]), vec2f(e[2], e[3])), vec2f(e[4], e[5])); pnums(ss.str()); }
     { std::stringstream ss; ss << quaternionf(e[0], e[1], e[2], e[3]); pnums(ss.str()); }
     pa3(A3::rotate(quaternionf(e[0], e[1], e[2], e[3])));   // the (non-normalising) wrapper around LinearSpace3(q)
+    out.push_back(eqA2); out.push_back(neA2);
     return true;
   }
   if (kind == "r2") {
@@ -297,7 +360,7 @@ int main(int argc, char **argv)
     while (ss >> tok) in.v.push_back(strtod(tok.c_str(), nullptr));
     out.clear();
     bool ok = false;
-    if (mode == "f") ok = run_o2<vec2f>(kind, in) || run_l2(kind, in) || Lin3<vec3f>::run(kind, in) || Quat<float>::run(kind, in);
+    if (mode == "f") ok = run_o2<vec2f>(kind, in) || ((kind == "f2" || kind == "ocx2") && run_l2_any<vec2f>(kind, in)) || run_l2(kind, in) || Lin3<vec3f>::run(kind, in) || Quat<float>::run(kind, in);
     else if (mode == "fa") ok = Lin3<vec3fa>::run(kind, in);
     else if (mode == "d") ok = run_o2<vec2d>(kind, in) || Quat<double>::run(kind, in);
     else if (mode == "dd") ok = run_l2_any<vec2d>(kind, in) || Lin3<vec3d>::run(kind, in);
